@@ -181,7 +181,9 @@ DESCS = {
     "two paragraphs": ["First line.", "second line", "", "Second paragraph."],
     "role on a continuation line": ["Uses the helper", ":class:`Codec` to do it."],
     "list in the description": ["Choices:", "", "- one", "- two"],
+    "two blank lines inside": ["Snippet:", "", "", "after two blank lines."],
 }
+GOOGLE_ONLY_DESCS = {"two blank lines inside"}  # two blank lines end a Numpy block, and one ends a Sphinx field
 
 
 def _google_item(kind: str, name: str | None, typ: str | None, desc: list[str]) -> list[str]:
@@ -320,6 +322,8 @@ def _roundtrip_table(prog: Program, ctx: Ctx) -> None:  # noqa: PLR0912,PLR0915
             n += 1
             ctx.ob("R6", f"pair|{style}|{k1} then {k2}", got == want, f"{style}: a {k1} section followed by a {k2} section parses to {got}" + ("" if got == want else f"; written: {want}"), where(fn))
         for kind, (dname, desc) in itertools.product(ITEM_KINDS, DESCS.items()):
+            if dname in GOOGLE_ONLY_DESCS and style != "google":
+                continue
             secs = [fix_raises(sample(kind, "a", desc)), sample("admonition", "")]
             got = parse(style, _render(style, secs), parent())
             want = _expected(secs)
@@ -332,6 +336,19 @@ def _roundtrip_table(prog: Program, ctx: Ctx) -> None:  # noqa: PLR0912,PLR0915
         want = [("text", "Summary."), ("parameters", [("x", "str", "Typed in the docstring."), ("y", "SIG_Y", "Typed in the signature only."), ("z", None, "Unknown to the signature.")])]
         n += 1
         ctx.ob("R6", f"signature|{style}|parameters", got == want, f"{style}: parameter annotations {got}" + ("" if got == want else f"; expected {want}"), where(fn))
+        # defaults omitted from the docstring come from the signature, in both parameter sections and whatever the warning option says
+        for kind, warn in itertools.product(("parameters", "other parameters"), (True, False)):
+            secs = [(kind, [("x", "int", ["Has a default in the signature."]), ("y", "int", ["Has none."])])]
+            ds = Obj(dcls, {"lines": _render(style, secs), "value": "\n".join(_render(style, secs)), "parent": par, "lineno": 1, "endlineno": 9}, label="docstring")
+            it.steps = 0
+            try:
+                out = it.call(fn, ds, warn_unknown_params=warn)
+                gotd: object = [(x.attrs.get("name"), x.attrs.get("value")) for s_ in out if s_.cls.name != "DocstringSectionText" for x in s_.attrs["value"]]
+            except Raised as r:
+                gotd = f"raises {r.exc}"
+            n += 1
+            ctx.ob("R6", f"signature|{style}|{kind}|defaults|warn_unknown_params={warn}", gotd == [("x", "1"), ("y", None)],
+                   f"{style}: defaults of the {kind} items x (signature default 1) and y (none), warn_unknown_params={warn}: {gotd}", where(fn))
     # Sphinx: field lists (order of sections is not part of the property for this style)
     fn = prog.function("_griffe.docstrings.sphinx.parse_sphinx")
 
